@@ -5,6 +5,7 @@ from sa.match import comparison, const_value, holds
 from sa.build import AnalysisBroken
 from sa.prog import int_type
 from props.common import declref, member_on
+from sa.canon import canon, norm, statements, pin, V, C
 
 UNITS = ['src/network/KeyExchange.cpp', 'src/network/KeyManager.cpp', 'src/core/Node.cpp']
 LEVEL = 'other'
@@ -94,8 +95,52 @@ def run(ck):
                 red = [w for w in local_writes(me, d) if me.nodes[w].get('op') == '%=']
                 if not red or not all(cfg.dominates(cfg.locate(red[0]), cfg.locate(m)) for _ in [0]):
                     okm, why = False, 'parameter %s is multiplied before being reduced' % me.text(opnd)
-        ck.ob('C12.modexp', 'C12.modexp/no-wrap#%d' % m, okm and mod_bits == 32, me.loc(m),
+        ck.ob('C12.modexp', 'C12.modexp/no-wrap#%d' % (muls.index(m) + 1), okm and mod_bits == 32, me.loc(m),
               'both factors of %s are 64-bit values below a 32-bit modulus, so the product cannot wrap%s' % (me.text(m), (' — ' + why) if why else ''))
+    # a (re-)handshake always installs the key it derived: the table entry is overwritten on every path
+    PKM = ck.prog(['src/network/KeyManager.cpp'])
+    rg = PKM.fn(KM + 'register_session_with_material')
+    ck.touch(rg)
+    from sa.paths import Cfg as _Cfg
+    installs, other = [], []
+    for i in rg.walk():
+        nd = rg.nodes[i]
+        c_ = nd.get('callee') or ''
+        if nd['k'] == 'CXXOperatorCallExpr' and nd.get('op') == '=' and len(rg.kids(i)) == 3:
+            l = rg.nodes[rg.strip(rg.kids(i)[1])]
+            if l['k'] == 'CXXOperatorCallExpr' and l.get('op') == '[]' and rg.nodes[rg.strip(rg.kids(rg.strip(rg.kids(i)[1]))[1])].get('m', '').endswith('KeyManager::contexts_'):
+                installs.append(i)
+        if nd['k'] == 'CXXMemberCallExpr' and c_.split('::')[-1] in ('insert_or_assign',) and rg.nodes[rg.strip(rg.receiver(i))].get('m', '').endswith('KeyManager::contexts_'):
+            installs.append(i)
+        if nd['k'] == 'CXXMemberCallExpr' and c_.split('::')[-1] in ('try_emplace', 'emplace', 'insert') and rg.nodes[rg.strip(rg.receiver(i))].get('m', '').endswith('KeyManager::contexts_'):
+            other.append(i)
+    cfg_r = _Cfg.of(rg)
+    wit = cfg_r.must_pass_from((cfg_r.entry, -1), lambda e, s_=set(installs): e in s_) if installs else ['no unconditional assignment to contexts_[peer]']
+    ck.ob('C12.install', 'C12.install/unconditional', wit is None and not other, rg.loc(other[0]) if other else rg.loc(),
+          'register_session_with_material overwrites the peer\'s context with the freshly derived key on every path (a kept old context '
+          'leaves the two ends of a re-handshake on different keys)', wit)
+    # shape: right-to-left square-and-multiply with a single exit that returns the accumulator
+    pin(me)
+    b_, e_, m_ = (V(x) for x in ('base', 'exponent', 'modulus'))
+    r_ = V('result')
+    sts = [(op, norm(l), norm(r)) for op, l, r, _i in statements(me)]
+    want = [('%=', b_, m_), ('=', r_, norm(('%', ('*', r_, b_), m_))), ('=', b_, norm(('%', ('*', b_, b_), m_))), ('>>=', e_, C(1))]
+    rets = [i for i in me.walk() if me.nodes[i]['k'] == 'ReturnStmt']
+    jumps = [i for i in me.walk() if me.nodes[i]['k'] in ('BreakStmt', 'ContinueStmt', 'GotoStmt')]
+    ret_ok = len(rets) == 1 and norm(canon(me, me.kids(rets[0])[0])) in (r_, norm(('%', r_, m_)))
+    lp = [i for i in me.walk() if me.nodes[i]['k'] in ('WhileStmt', 'ForStmt')]
+    c = comparison(me, me.nodes[lp[0]]['cond']) if len(lp) == 1 else None
+    loop_ok = bool(c) and c[0] in ('>', '!=') and norm(canon(me, c[1])) == e_ and const_value(me, c[2]) == 0
+    guard_ok = False
+    for i in me.walk():
+        nd = me.nodes[i]
+        if nd['k'] == 'IfStmt' and norm(canon(me, nd['cond'])) == norm(('&', e_, C(1))):
+            inner = [(op, norm(l), norm(r)) for op, l, r, _i in statements(me, nd['then'])]
+            guard_ok = inner == [want[1]]
+    extra = [x for x in sts if x not in want and not (x[0] == '=' and x[1] == r_ and x[2] in (C(1), norm(('%', C(1), m_))))]
+    ck.ob('C12.modexp', 'C12.modexp/square-and-multiply', all(w in sts for w in want) and not extra and ret_ok and not jumps and loop_ok and guard_ok, me.loc(),
+          'modexp is right-to-left square-and-multiply: result = result*base %% m under (exponent & 1), base = base*base %% m, exponent >>= 1 '
+          'while exponent > 0, one exit returning the accumulator (statements %s, returns %d, jumps %d)' % ([x for x in sts if x not in want][:3], len(rets), len(jumps)))
     # same prime on both sides of the exchange
     cp = P.fn(KE + 'compute_public')
     ds = P.fn(KE + 'derive_shared_secret')
